@@ -854,7 +854,8 @@ class Analysis:
             return (k, self._strip(o.val))
         if k == "comment":
             sign = self.o.import_sign
-            if sign is not None:
+            # (a class-sign comment that happens to start with the import sign, e.g. signs "é" and "é sign", is the class sign)
+            if sign is not None and not (self.o.sign is not None and o.val == self.o.sign):
                 pth = _import_comment_path(sign, o.val)
                 if pth is not None:
                     return (k, sign, pth)
@@ -907,7 +908,8 @@ class Analysis:
                 had_ws = False
         sign = self.o.import_sign
         ech = _chunks(exp, lambda e: e.role == "import-comment")
-        och = _chunks(osig, lambda t: sign is not None and t.kind == "comment" and t.val.startswith(sign + " "))
+        och = _chunks(osig, lambda t: sign is not None and t.kind == "comment" and t.val.startswith(sign + " ")
+                      and not (self.o.sign is not None and t.val == self.o.sign))
         if len(ech) <= 1 and len(och) <= 1:
             ok = self.cmp_tokens(exp, osig, ws_before, which, enclosing, 0, len(exp), 0, len(osig))
         else:
